@@ -182,3 +182,36 @@ Proof.
 Qed.
 Lemma unwrap_direct_total cek k s : unwrap_direct cek k <> Panic s.
 Proof. unfold unwrap_direct. destruct (is_nil k); discriminate. Qed.
+
+(* ------------------------------------------------------------------ histories on objects *)
+(* no operation changes the objects *)
+Lemma hist_step_persistent objs op : fst (hist_step objs op) = objs.
+Proof.
+  unfold hist_step. destruct op as [z|b|l]; try reflexivity.
+  destruct l as [|[c| |] [|[i| |] [|? ?]]]; try reflexivity.
+  destruct (nth_error objs (Z.to_nat i)); reflexivity.
+Qed.
+
+(* hence every result of a history is a function of the initial objects and of that operation
+   alone -- whatever was done before, and wherever the operation stands in the history *)
+Lemma hist_run_pointwise objs ops : hist_run objs ops = map (fun op => snd (hist_step objs op)) ops.
+Proof.
+  induction ops as [|op ops IH]; [reflexivity|]. cbn [hist_run map].
+  pose proof (hist_step_persistent objs op) as P. destruct (hist_step objs op) as [objs' r]. cbn [fst snd] in *.
+  subst objs'. rewrite IH. reflexivity.
+Qed.
+
+Lemma hist_run_app objs a b : hist_run objs (a ++ b) = hist_run objs a ++ hist_run objs b.
+Proof. rewrite !hist_run_pointwise. apply map_app. Qed.
+
+(* what the results are: the right key returns exactly the payload, a wrong key an error, the
+   serializations are those of the object as created *)
+Lemma hist_obs_spec o :
+  hist_obs o 3 = SL [SZ 3; SZ 0; SB (hobj_payload o)] /\
+  hist_obs o 4 = SL [SZ 4; SZ 1] /\
+  hist_obs o 1 = SL [SZ 1; SB (hobj_compact o)] /\
+  hist_obs o 2 = SL (SZ 2 :: hobj_members o) /\
+  hist_obs o 6 = SL [SZ 6; SZ 0; SB (hobj_payload o)] /\
+  hist_obs o 10 = SL [SZ 10; SZ 0; SB (hobj_payload o); SZ 0; SB (hobj_payload o)] /\
+  hist_obs o 11 = SL [SZ 11; SZ 1; SZ 0; SB (hobj_payload o)].
+Proof. repeat split; reflexivity. Qed.
